@@ -21,6 +21,13 @@ Grammar accepted inside a block (anything else raises TranslateError):
           | 0 | 1 | 0.0 | 1.0 | CAST '(' expr ')'    CAST in {K, field_type, real_type}
           | 'determinant(doPivoting)'                  (the closed form of the same size)
 
+Besides the blocks, two pieces of "data" are read off the source and emitted as definitions that the top-level
+model (Model/C02Top.lean) and its theorems use:
+  * `closedFormSizes`: the list of k with a branch `if (rows()==k)` in determinant/solve/invert (must agree in the
+    three functions; any other comparison of rows() except the `rows()!=cols()` guard raises);
+  * `solveDefaultPivoting`, `invertDefaultPivoting`, `determinantDefaultPivoting`: the literal default arguments
+    `bool doPivoting = ...` of the declarations inside class DenseMatrix.
+
 The sequential in-place updates of `invert` are kept as sequential `let` rebinding in exactly the source order.
 `#ifdef DUNE_FMatrix_WITH_CHECKING ... #endif` regions are not compiled by the harness and are skipped.
 """
@@ -474,6 +481,41 @@ def translate(repo):
                 continue
             blk = Block(n, "%s %dx%d" % (fname, n, n), "matrix", out_matrix="inverse").run(body)
             out.append(emit("%s%d" % (lname, n), n, blk, "fmh"))
+
+    # the size dispatch of the three member functions: which `rows()==k` tests exist (everything else is the LU path)
+    sizes = {}
+    for fname, body in (("determinant", det_body), ("solve", solve_body), ("invert", inv_body)):
+        tests = re.findall(r"\brows\s*\(\s*\)\s*(==|!=|<=|>=|<|>)\s*(\w+(?:\s*\(\s*\))?)", body)
+        closed = []
+        for op, rhs in tests:
+            rhs = re.sub(r"\s+", "", rhs)
+            if op == "!=" and rhs == "cols()":
+                continue            # the `rows()!=cols()` guard (non-square: FMatrixError), outside the property
+            if op == "==" and rhs.isdigit():
+                closed.append(int(rhs))
+                continue
+            raise TranslateError("%s: size test `rows() %s %s` outside the translator's grammar" % (fname, op, rhs))
+        sizes[fname] = closed
+    if not (sizes["determinant"] == sizes["solve"] == sizes["invert"]):
+        raise TranslateError("size dispatch differs between determinant/solve/invert: %r" % (sizes,))
+    out.append("/-- the sizes `k` with a closed-form branch `if (rows()==k)` (in source order); all other sizes take the LU path -/\n"
+               "def closedFormSizes : List Nat := [%s]" % ", ".join(str(k) for k in sizes["solve"]))
+
+    # default arguments of the declarations inside class DenseMatrix
+    decls = (
+        ("solveDefaultPivoting",
+         r"void\s+solve\s*\(\s*V1\s*&\s*x\s*,\s*const\s+V2\s*&\s*b\s*,\s*bool\s+doPivoting\s*=\s*(\w+)\s*\)\s*const\s*;"),
+        ("invertDefaultPivoting", r"void\s+invert\s*\(\s*bool\s+doPivoting\s*=\s*(\w+)\s*\)\s*;"),
+        ("determinantDefaultPivoting",
+         r"field_type\s+determinant\s*\(\s*bool\s+doPivoting\s*=\s*(\w+)\s*\)\s*const\s*;"),
+    )
+    for lname, rx in decls:
+        ms = re.findall(rx, dm)
+        if len(ms) != 1 or ms[0] not in ("true", "false"):
+            raise TranslateError("%s: expected exactly one declaration with a literal default for doPivoting, found %r"
+                                 % (lname, ms))
+        out.append("/-- default argument `bool doPivoting = %s` of the declaration in class DenseMatrix -/\n"
+                   "def %s : Bool := %s" % (ms[0], lname, ms[0]))
 
     out.append("end DV.C02.Gen")
     return [("DuneVerif/Gen/C02.lean", "\n\n".join(out) + "\n")]
